@@ -34,6 +34,45 @@ type FaultFS struct {
 	Log []string
 	// Fired is set when the planned fault actually happened.
 	Fired bool
+	// FullMatch is the "disk full" fault for a class of files: an OsCreate (or an OsOpenFile for
+	// writing) of a path that contains one of these substrings creates the (empty) file but returns a
+	// handle on /dev/full instead, so that every later write through the handle fails with ENOSPC.
+	// Of the matching creations, number FullFrom (0-based) and the FullCount-1 following ones are
+	// affected (FullCount <= 0: all from FullFrom on). No effect while FullMatch is empty.
+	FullMatch []string
+	FullFrom  int
+	FullCount int
+	fullSeen  int
+	// FullFired counts the handles that were replaced.
+	FullFired int
+}
+
+// fullDiskHit decides whether the creation of name is hit by the disk-full fault.
+func (fs *FaultFS) fullDiskHit(name string) bool {
+	for _, m := range fs.FullMatch {
+		if m == "" || !strings.Contains(name, m) {
+			continue
+		}
+		idx := fs.fullSeen
+		fs.fullSeen++
+		if idx >= fs.FullFrom && (fs.FullCount <= 0 || idx < fs.FullFrom+fs.FullCount) {
+			fs.FullFired++
+			Fault("fulldisk:" + m)
+			return true
+		}
+		return false
+	}
+	return false
+}
+
+// openFull creates name (empty, as a full disk still does) and returns a handle whose writes fail.
+func openFull(name string) (*os.File, error) {
+	f, err := os.Create(name)
+	if err != nil {
+		return nil, err
+	}
+	f.Close()
+	return os.OpenFile("/dev/full", os.O_WRONLY, 0)
 }
 
 // NewFaultFS returns a plan with no fault.
@@ -89,12 +128,18 @@ func OsCreate(name string) (*os.File, error) {
 	if err := FSOp("create", name); err != nil {
 		return nil, err
 	}
+	if s := active(); s != nil && s.FS != nil && len(s.FS.FullMatch) > 0 && s.FS.fullDiskHit(name) {
+		return openFull(name)
+	}
 	return os.Create(name)
 }
 
 func OsOpenFile(name string, flag int, perm os.FileMode) (*os.File, error) {
 	if err := FSOp("openfile", name); err != nil {
 		return nil, err
+	}
+	if s := active(); s != nil && s.FS != nil && len(s.FS.FullMatch) > 0 && flag&(os.O_WRONLY|os.O_RDWR) != 0 && flag&os.O_CREATE != 0 && s.FS.fullDiskHit(name) {
+		return openFull(name)
 	}
 	return os.OpenFile(name, flag, perm)
 }
